@@ -236,11 +236,20 @@ class ORMatic:
                     *table.relationships,
                 )
             ]
-            # a column of the same name in the table of an ancestor is silently combined with this one by SQLAlchemy
+            # a column of the same name in the table of an ancestor is silently combined with this one by SQLAlchemy,
+            # a relationship of the same name in an ancestor is in the way of a column of this table
             inherited = []
             parent = table.parent_table
             while parent is not None:
-                inherited += [c.name for c in (*parent.builtin_columns, *parent.custom_columns, *parent.foreign_keys)]
+                inherited += [
+                    c.name
+                    for c in (
+                        *parent.builtin_columns,
+                        *parent.custom_columns,
+                        *parent.foreign_keys,
+                        *parent.relationships,
+                    )
+                ]
                 parent = parent.parent_table
             clashes = sorted(
                 {
